@@ -45,7 +45,7 @@ package event
   ensures (= result (involved {obj} {f.kind} {f.ns} {f.name}))
 @*/
 /*@ func (*types/event.involvedFilter).Equals
-  props C17
+  props C17 C07 C06
   theory eventfilters
   implements filter.ComparableFilter.Equals
   requires [recv] (not (= {f} vnil))
